@@ -1,4 +1,5 @@
 import Mimium.Proofs.StateMachine
+import Mimium.Proofs.FlatRing
 /-!
 # C01 — VM and WASM backends produce identical audio
 
@@ -10,6 +11,9 @@ storage, and never grows it (`C01_prim_bisim`).  Outside that premise they reall
 C01 depends on C05.  The two code generators and wasmtime are NOT modelled: their agreement is decided by the
 correspondence stage (generated programs on both backends, both compared with the reference semantics
 `Model/Core.lean`, which makes agreement transitive — `C01_both_match_model_imp_equal`).
+`C01_delayFlat_eq_ring` / `C01_delay_both_eq_ring`: the flat ring-buffer update both runtimes perform on the words
+`[rd, wr, data…]` IS `Ringbuffer::process` (`Cells.Ring.process`, the function `C02_delay_spec` is about) on the ring those
+words encode — for every ring whose write index fits a machine word — and touches no other word.
 -/
 namespace Mimium.StateMachine
 
@@ -36,6 +40,35 @@ theorem C01_prim_diverge_oob :
 /-- the shape the check relies on: if each backend equals the (functional) reference semantics, they equal each other -/
 theorem C01_both_match_model_imp_equal {α : Type} (model vm wasm : α) (h1 : vm = model) (h2 : wasm = model) :
     vm = wasm := by rw [h1, h2]
+
+/-- the shared flat ring-buffer update (`delayFlat`, text of `Machine::delay` / `state_delay_host`) on a storage that holds
+the words of ring `r` at `pre.length` computes `Ringbuffer::process` and leaves the words of the updated ring -/
+theorem C01_delayFlat_eq_ring (pre post : List UInt64) (r : Cells.Ring) (x t : UInt64)
+    (hlen : 0 < r.data.length) (hwr : r.wr < 2 ^ 64) :
+    delayFlat (pre ++ r.words ++ post) pre.length r.data.length x t =
+      ((r.process x t).1, pre ++ (r.process x t).2.words ++ post) :=
+  delayFlat_eq_ring pre post r x t hlen hwr
+
+/-- both runtimes' `Delay` at a ring's words: same output, same storage, namely `Ringbuffer::process` of the ring
+(including the degenerate length 0, where both return 0 and change nothing) -/
+theorem C01_delay_both_eq_ring (pre post : List UInt64) (r : Cells.Ring) (x t : UInt64)
+    (hwr : r.wr < 2 ^ 64) (hmax : r.data.length ≤ maxWasmDelay) :
+    vmStep ⟨pre.length, pre ++ r.words ++ post⟩ (.delay r.data.length x t) =
+      some (⟨pre.length, pre ++ (r.process x t).2.words ++ post⟩, [(r.process x t).1]) ∧
+    wasmStep ⟨pre.length, pre ++ r.words ++ post⟩ (.delay r.data.length x t) =
+      (⟨pre.length, pre ++ (r.process x t).2.words ++ post⟩, [(r.process x t).1]) := by
+  have h := step_delay pre post r x t hwr
+  refine ⟨h, step_agree _ _ _ _ ?_ h⟩
+  intro len x' t' e
+  cases e
+  exact hmax
+
+/-! non-vacuity of the two ring lemmas: a ring of length 3 in the middle of a storage -/
+example :
+    let r : Cells.Ring := ⟨1, 2, [7, 8, 9]⟩
+    0 < r.data.length ∧ r.wr < 2 ^ 64 ∧ r.data.length ≤ maxWasmDelay ∧
+    (vmStep ⟨1, [5] ++ r.words ++ [6]⟩ (.delay 3 4 0)).isSome = true := by
+  decide +kernel
 
 /-! non-vacuity: an in-bounds trace with nested pushes, a tuple-valued `self` (2 words), a mem and a delay -/
 example :
